@@ -504,6 +504,21 @@ func inputs() {
 			w.Violation("wasm-palette", fmt.Sprintf("palette colour %d / %d drawn as #%06x on #%06x, want #%06x on #%06x", i, 255-i, pc.fg, pc.bg, wf, wb), nil)
 		}
 	}
+	// 24-bit colours whose value is small (a value, not a palette index): every RGB value
+	// 0x000000..0x000120 and the same shifted into the green and red bytes
+	for v := 0; v <= 0x120; v++ {
+		for _, sh := range []uint{0, 8, 16} {
+			c := (v << sh) & 0xffffff
+			w.R.Evaluations++
+			fgc, bgc := tcell.NewHexColor(int32(c)), tcell.NewHexColor(int32(0xffffff-c))
+			s.SetContent(0, 0, rune('a'+v%26), nil, tcell.StyleDefault.Foreground(fgc).Background(bgc).Underline(tcell.UnderlineStyleSolid, fgc))
+			s.Show()
+			pc := pg.cells[[2]int{0, 0}]
+			if pc.fg != c || pc.bg != 0xffffff-c || pc.uc != c {
+				w.Violation("wasm-rgb", fmt.Sprintf("RGB colours #%06x on #%06x (underline #%06x) drawn as #%06x on #%06x (underline #%06x)", c, 0xffffff-c, c, pc.fg, pc.bg, pc.uc), nil)
+			}
+		}
+	}
 	// paste and focus
 	for _, on := range []bool{true, false} {
 		s.EnablePaste()
